@@ -2,7 +2,7 @@
 Line-protocol driver: answers the same requests as the Rust harness, from the Impl model.
 usage: hbsdriver [maxLevels heightsCsv winternitzCsv]
 -/
-import HbsLms.Impl.Hss
+import HbsLms.Impl.FastVerify
 
 open Impl
 
@@ -103,6 +103,26 @@ def runOp (cfg : Config) (H : HashFn) (op : String) (a : List (String × String)
       | some "vsig" => some Entry.viaVerifierSignature
       | _ => none
     pure <| showP (verifyEntry e H cfg msg sig pk) fun b => if b then "ok" else "err"
+  | "signmut" => do
+    let sk ← argBytes a "sk"
+    let msg ← argBytes a "msg"
+    let trailer ← argBytes a "trailer"
+    let accept ← match arg a "cb" with
+      | some "accept" => some true
+      | some "reject" => some false
+      | _ => none
+    pure <| showP (hssSignMut H cfg msg trailer sk (fun _ => accept)) fun (o, m) =>
+      let cbs := if o.trace.isEmpty then "none" else ",".intercalate (o.trace.map Bytes.toHex)
+      match o.result with
+      | some sig => s!"ok sig={Bytes.toHex sig} cb={cbs} msg={Bytes.toHex m}"
+      | none => s!"err cb={cbs} msg={Bytes.toHex m}"
+  | "fveval" => do
+    let t ← argNat a "type"
+    let d ← argBytes a "digest"
+    if d.length != H.n then none
+    pure <| match Params.lmotsGetFromType H.n t with
+      | none => "none"
+      | some p => showP (fastVerifyEval H.n p d) fun v => s!"ok {v}"
   | "lifetime" => do
     let sk ← argBytes a "sk"
     pure <| showP (getLifetime H cfg sk) fun r =>
